@@ -612,6 +612,83 @@ def dispatch_lists_frozen(ctx: Context, rule_id: str = "R14n") -> None:
             rule.ok(key, "written only by apply_configuration and what it calls")
 
 
+def r14o(ctx: Context) -> None:
+    """In fix mode a line rule answers through the context: it leaves the rewritten line in ``current_fix_line``.  The
+    dispatcher reads that field after the callback - so it must have emptied it before the callback, on the same
+    context, on every fix-mode path of the loop.  Otherwise the answer one rule left behind (for the previous line, or
+    from the line pass when the file is completed) is taken for the answer of the next one: a line is rewritten that
+    no rule asked to rewrite."""
+    prog = ctx.prog
+    rule = ctx.rule("R14o", "a dispatcher that reads the fix line after a callback has emptied it before the callback", 2)
+    manager = prog.cls(PM)
+
+    def empties(func: FuncInfo, stmt: ast.AST) -> bool:
+        for call in [c for c in ast.walk(stmt) if isinstance(c, ast.Call)]:
+            if isinstance(call.func, ast.Attribute) and call.func.attr == "set_current_fix_line" and call.args and isinstance(call.args[0], ast.Constant) and call.args[0].value is None:
+                return True
+            site = site_for(prog, func, call)
+            if site is not None and len(site.targets) == 1 and site.targets[0].cls == manager:
+                helper = site.targets[0]
+                if any(isinstance(s, ast.Expr) and empties(helper, s) for s in helper.node.body):  # type: ignore[attr-defined]
+                    return True
+        return False
+
+    def reads(node: ast.AST) -> bool:
+        return any(isinstance(sub, ast.Attribute) and sub.attr == "current_fix_line" and isinstance(sub.ctx, ast.Load) for sub in ast.walk(node))
+
+    checked = 0
+    for callback in ("next_line", "completed_file", "next_token", "starting_new_file"):
+        dispatcher = manager.methods.get(callback)
+        if dispatcher is None:
+            continue
+        for loop in [n for n in walk_local(dispatcher.node) if isinstance(n, ast.For)]:
+            if not any(isinstance(c, ast.Call) and isinstance(c.func, ast.Attribute) and c.func.attr == callback and isinstance(c.func.value, ast.Attribute) and c.func.value.attr == "plugin_instance" for c in ast.walk(loop)):
+                continue
+            if not reads(loop):
+                continue
+            checked += 1
+            body_fn = ast.FunctionDef(name="<body>", args=ast.arguments(posonlyargs=[], args=[], kwonlyargs=[], kw_defaults=[], defaults=[]), body=loop.body, decorator_list=[], lineno=loop.lineno, col_offset=0)
+            cfg = CFG(body_fn, raising=lambda n: False)
+            witness = None
+            for path in enumerate_paths(cfg, loop_bound=1, stop=lambda nid: isinstance(cfg.nodes[nid].ast_node, ast.Continue)):
+                taken: Dict[str, str] = {}
+                consistent = True
+                emptied = False
+                called = False
+                scan_mode = False
+                stale = None
+                for nid, label in path:
+                    node = cfg.nodes[nid]
+                    if node.ast_node is None:
+                        continue
+                    if node.kind == "cond":
+                        text = norm(node.ast_node)
+                        if taken.setdefault(text, label) != label:
+                            consistent = False
+                            break
+                        if text.endswith("in_fix_mode") and label == "false":
+                            scan_mode = True
+                        if called and not emptied and reads(node.ast_node):
+                            stale = node.ast_node
+                    elif node.kind == "stmt":
+                        if not called and empties(dispatcher, node.ast_node):
+                            emptied = True
+                        if any(isinstance(c, ast.Call) and isinstance(c.func, ast.Attribute) and c.func.attr == callback and isinstance(c.func.value, ast.Attribute) and c.func.value.attr == "plugin_instance" for c in ast.walk(node.ast_node)):
+                            called = True
+                        elif called and not emptied and reads(node.ast_node):
+                            stale = node.ast_node
+                if consistent and not scan_mode and stale is not None:
+                    witness = stale
+                    break
+            key = func_key(dispatcher, loop) + " [fix line emptied first]"
+            if witness is not None:
+                rule.fail(key, where(dispatcher, witness), f"PluginManager.{callback} reads the context's fix line after the callback ('{norm(witness)[:60]}') on a fix-mode path that has not emptied it before the callback: what an earlier callback left there is taken for this rule's answer and written to the file")
+            else:
+                rule.ok(key, "emptied before the callback on every fix-mode path that reads it")
+    if checked < 2:
+        raise AnalysisError(f"only {checked} dispatcher loop(s) that read the fix line found (2 confirmed: next_line, completed_file)")
+
+
 def r14d(ctx: Context) -> None:
     prog = ctx.prog
     rule = ctx.rule("R14d", "dispatch lists are built from the enabled plugins only", 1)
@@ -959,6 +1036,7 @@ def run(ctx: Context) -> None:
     r14c(ctx)
     r14d(ctx)
     dispatch_lists_frozen(ctx)
+    r14o(ctx)
     r14e(ctx)
     r14f(ctx)
     r14g(ctx)
